@@ -798,7 +798,7 @@ def _run_detect(case, ctx):
     def unpack(r):
         if r is ctx.CRASH:
             return None
-        if not (isinstance(r, tuple) and len(r) == 2 and isinstance(r[1], dict)):
+        if not (isinstance(r, (tuple, list)) and len(r) == 2 and isinstance(r[1], dict)):
             ctx.fail("C15.detect.shape", "detect_bad_channels did not return (labels, features)")
             return None
         return r
@@ -884,8 +884,10 @@ def _run_file(case, ctx):
     D[:, order] = q.T
     D[:, nc] = np.random.default_rng(case["sync_seed"]).integers(0, 2, size=ns).astype(np.int16) * 64
     Xq = (q.astype(np.float32) * s2v[order][:, None].astype(np.float32))  # what a calibrated read returns (C01)
+    Xq.flags.writeable = not case.get("batch_view", False)
     del X
-    ctx.label("file", "file_" + case["gen"], "cbin" if case["cbin"] else "bin", f"nb{nb}", f"bd{bd}")
+    inp = case.get("input", "path")
+    ctx.label("file", "file_" + case["gen"], "cbin" if case["cbin"] else "bin", f"nb{nb}", f"bd{bd}", "file_given_as_" + inp)
     for f in faults:
         _fault_labels(ctx, f, nc, prefix="batch_")
     if any(f.get("dead") is not None or f.get("noisy") is not None or f.get("blk") for f in faults):
@@ -902,18 +904,47 @@ def _run_file(case, ctx):
         if nb == 10 and bd == 0.3:
             kw = {}  # both defaults: the plain call form
             ctx.label("file_default_call_form")
-        got = ctx.call("C15.file", v.detect_bad_channels_cbin, path, **kw)
-    if got is ctx.CRASH:
+        got2 = None
+        if inp.startswith("reader"):
+            # an open Reader, as decompress_destripe_cbin hands over - and goes on reading from afterwards
+            sr = ctx.call("C15.file.reader", sut.spikeglx().Reader, path)
+            if sr is ctx.CRASH:
+                return
+            try:
+                probe = slice(win[-1][0], win[-1][0] + 7)
+                before = ctx.call("C15.file.reader", lambda: np.array(sr[probe, :]))
+                got = ctx.call("C15.file", v.detect_bad_channels_cbin, sr, **kw)
+                if got is not ctx.CRASH:
+                    after = ctx.call("C15.file.reader_after_call", lambda: np.array(sr[probe, :]))
+                    ctx.check(after is ctx.CRASH or before is ctx.CRASH or (after.shape == before.shape and np.array_equal(after, before)),
+                              "C15.file.reader_after_call", "the Reader given to detect_bad_channels_cbin returns other samples after the call")
+                    if inp == "reader_twice" and after is not ctx.CRASH:
+                        got2 = ctx.call("C15.file", v.detect_bad_channels_cbin, sr, **kw)
+            finally:
+                ctx.call("C15.file.reader", sr.close)
+        else:
+            got = ctx.call("C15.file", v.detect_bad_channels_cbin, str(path) if inp == "str" else path, **kw)
+    if got is ctx.CRASH or got2 is ctx.CRASH:
         return
     got = np.asarray(got)
     if got.shape != (nc,):
         got = got.reshape(-1) if got.size == nc else got
     _compare(ctx, got, _modal(exp_cols), {}, f"file labels vs injected per-batch faults {faults}", base_kind="C15.file")
+    if got2 is not None:
+        got2 = np.asarray(got2)
+        ctx.check(got2.shape == got.shape and np.array_equal(got2, got), "C15.file.second_call_differs",
+                  lambda: f"second call on the same Reader: labels differ at channels "
+                          f"{np.flatnonzero(got2.reshape(-1) != got.reshape(-1))[:8].tolist() if got2.size == got.size else got2.shape}")
     # same relation against the labels detect_bad_channels gives on the harness' copy of every batch
     cols = np.zeros((nc, nb), dtype=int)
     for j, (a, b) in enumerate(win):
-        r = ctx.call("C15.detect", v.detect_bad_channels, np.ascontiguousarray(Xq[:, a:b]), fs)
+        # the harness' copy of the batch: contiguous, or the read-only view on the columns of the whole recording
+        xb = Xq[:, a:b] if case.get("batch_view", False) else np.ascontiguousarray(Xq[:, a:b])
+        r = ctx.call("C15.detect", v.detect_bad_channels, xb, fs=fs)
         if r is ctx.CRASH:
+            return
+        if not (isinstance(r, (tuple, list)) and len(r) == 2):
+            ctx.fail("C15.detect.shape", "detect_bad_channels did not return (labels, features)")
             return
         labj = np.asarray(r[0])
         if labj.shape != (nc,) or not np.all(np.isin(labj, [0, 1, 2, 3])):
@@ -970,17 +1001,22 @@ def _corner_faults(nc=384):
 def enum_cases(desc):
     nc = 384
     if desc.get("corners"):
-        for f in _corner_faults(nc)[desc.get("part", 0)::CORNER_SHARDS if "part" in desc else 1]:
+        for k, f in enumerate(_corner_faults(nc)[desc.get("part", 0)::CORNER_SHARDS if "part" in desc else 1]):
             f.setdefault("blk", 0)
-            yield {"kind": "detect", "nc": nc, "ns": desc["ns"], "fs": FS_AP, "dtype": "f8", "bg": _sweep_bg(10), "fault": f}
+            yield {"kind": "detect", "nc": nc, "ns": desc["ns"], "fs": FS_AP, "dtype": "f8", "bg": _sweep_bg(10), "fault": f,
+                   "layout": ["C", "T"][k % 2], "ro": k % 3 == 1, "kw": ["pos", "fs_kw", "explicit"][k % 3]}
         return
     bg = _sweep_bg(desc["bg"])
     for s in range(desc["shard"], nc, SWEEP_SHARDS):
         f = {"dead": s, "dead_mode": "tiny" if s % 3 == 2 else "zero",
              "noisy": (5 * s + 191) % nc, "noisy_uv": [80.0, 45.0, 140.0][s % 3], "noisy_mode": "replace" if s % 4 == 1 else "add",
              "blk": (s + 7 * desc["bg"]) % 41, "blk_mode": "quiet" if s % 5 == 3 else "incoh"}
+        # the call form rotates along the sweep (no extra calls): every form of _DETECT_FORMS, the three memory layouts and
+        # read-only input each meet positions spread over the whole probe; consecutive cases of a shard share a process
+        j = s // SWEEP_SHARDS
         yield {"kind": "detect", "nc": nc, "ns": desc["ns"], "fs": FS_AP, "dtype": "f4" if s % 2 else "f8", "bg": bg,
-               "fault": _sanitize(f, nc)}
+               "fault": _sanitize(f, nc), "layout": ["C", "T", "strided", "T"][(j + desc["shard"]) % 4], "ro": (j + s) % 3 == 0,
+               "kw": _DETECT_FORMS[(j + 3 * desc["shard"]) % len(_DETECT_FORMS)]}
 
 
 def run_case(case, ctx):
